@@ -19,6 +19,7 @@ const (
 	Iface Strategy = "iface" // every node implements ggql.Resolver
 	Any   Strategy = "any"   // untyped nodes behind Root.AnyResolver
 	Refl  Strategy = "refl"  // Go structs and methods found by reflection (fixed universe U-exec only)
+	Mixed Strategy = "mixed" // per node: Resolver object or plain data (root resolver if installed, else reflection)
 )
 
 // Binding selects how Go types are bound to GraphQL object types for the reflection strategy.
@@ -47,6 +48,7 @@ type World struct {
 	Strategy Strategy
 	ListMode ListMode
 	Binding  Binding
+	Mix      *MixSpec
 	faults   map[string]bool
 	mu       sync.Mutex
 	calls    []Call
@@ -69,6 +71,22 @@ func NewWorld(u *Universe, st Strategy, lm ListMode) (*World, error) {
 	}
 	if err := w.Root.ParseString(u.SDL()); err != nil {
 		return nil, fmt.Errorf("universe schema rejected: %w\n%s", err, u.SDL())
+	}
+	return w, nil
+}
+
+// NewMixedWorld realises each node according to mix.Assign; plain nodes are served by an
+// installed root resolver (mix.Any) or by reflection.
+func NewMixedWorld(u *Universe, lm ListMode, mix *MixSpec) (*World, error) {
+	w := &World{U: u, Strategy: Mixed, ListMode: lm, Mix: mix, faults: map[string]bool{}, nodes: map[string]interface{}{}}
+	if mix.Any {
+		w.Root = ggql.NewRoot(&anyNode{id: "$root"})
+		w.Root.AnyResolver = &anyRes{w: w}
+	} else {
+		w.Root = ggql.NewRoot(&refluni.Schema{B: w})
+	}
+	if err := w.Root.ParseString(u.SDL()); err != nil {
+		return nil, fmt.Errorf("universe schema rejected: %w", err)
 	}
 	return w, nil
 }
@@ -107,6 +125,11 @@ func (w *World) ReflResolve(id, field string, args map[string]interface{}) (inte
 		}
 		return nil, fmt.Errorf("no root %s", field)
 	}
+	if w.Strategy == Mixed {
+		// reflected methods always pass every declared argument; keep only what the request supplied
+		// is impossible to know here, so mixed cases use fields without arguments on plain nodes
+		return w.resolveVia("refl", id, &ggql.Field{Name: field}, args)
+	}
 	return w.resolve(id, &ggql.Field{Name: field}, args)
 }
 
@@ -135,7 +158,18 @@ func (w *World) node(id string) interface{} {
 		return n
 	}
 	var n interface{}
-	switch w.Strategy {
+	st := w.Strategy
+	if st == Mixed {
+		switch {
+		case w.Mix.Assign[id] == "resolver":
+			st = Iface
+		case w.Mix.Any:
+			st = Any
+		default:
+			st = Refl
+		}
+	}
+	switch st {
 	case Iface:
 		n = &resNode{w: w, id: id}
 	case Refl:
@@ -234,12 +268,16 @@ func valStr(v Value) string {
 // resolve is the common resolver body of both strategies: log the call, then
 // produce the universe's value for (node, field).
 func (w *World) resolve(id string, field *ggql.Field, args map[string]interface{}) (interface{}, error) {
+	return w.resolveVia("", id, field, args)
+}
+
+func (w *World) resolveVia(via, id string, field *ggql.Field, args map[string]interface{}) (interface{}, error) {
 	am := ValMap{}
 	for k, a := range args {
 		am[k] = ArgToValue(a)
 	}
 	w.mu.Lock()
-	w.calls = append(w.calls, Call{Node: id, Field: field.Name, Args: am})
+	w.calls = append(w.calls, Call{Node: id, Field: field.Name, Args: am, Via: via})
 	w.mu.Unlock()
 	if w.faults[id+"."+field.Name] {
 		return nil, fmt.Errorf("injected failure at %s.%s", id, field.Name)
@@ -281,6 +319,56 @@ func (w *World) resolve(id string, field *ggql.Field, args map[string]interface{
 		al.origin = id + "." + field.Name
 	}
 	return out, nil
+}
+
+// ReflSuitable reports whether the case can be realised by reflected methods with the same
+// observable behaviour as the other strategies: a Go method cannot tell an omitted or null
+// argument from a zero value, so fields taking arguments must be given all of them, non-null.
+func ReflSuitable(u *Universe, c *Case) bool {
+	if HasNthFault(c) {
+		return false
+	}
+	var ok func(tn string, sels []Sel) bool
+	declared := func(name string) int {
+		n := -1
+		for _, t := range u.Types {
+			if fd, has := t.Fields[name]; has && len(fd.Args) > n {
+				n = len(fd.Args)
+			}
+		}
+		return n
+	}
+	ok = func(tn string, sels []Sel) bool {
+		for _, s := range sels {
+			if s.K == "field" {
+				if n := declared(s.Name); n > 0 || len(s.Args) > 0 {
+					if len(s.Args) != n {
+						return false
+					}
+					for _, a := range s.Args {
+						if a.V.K == "null" || a.V.K == "var" || a.V.K == "obj" || a.V.K == "list" {
+							return false
+						}
+					}
+				}
+			}
+			if !ok(tn, s.Sels) {
+				return false
+			}
+		}
+		return true
+	}
+	for _, op := range c.Doc.Ops {
+		if !ok("", op.Sels) {
+			return false
+		}
+	}
+	for _, f := range c.Doc.Frags {
+		if !ok("", f.Sels) {
+			return false
+		}
+	}
+	return true
 }
 
 // HasNthFault reports whether the case injects a list accessor failure (only realisable
@@ -398,7 +486,7 @@ type resNode struct {
 }
 
 func (n *resNode) Resolve(field *ggql.Field, args map[string]interface{}) (interface{}, error) {
-	return n.w.resolve(n.id, field, args)
+	return n.w.resolveVia("iface", n.id, field, args)
 }
 
 // ---- AnyResolver realisation
@@ -418,7 +506,7 @@ func (r *anyRes) Resolve(obj interface{}, field *ggql.Field, args map[string]int
 		}
 		return nil, fmt.Errorf("no root %s", field.Name)
 	}
-	return r.w.resolve(n.id, field, args)
+	return r.w.resolveVia("any", n.id, field, args)
 }
 
 func (r *anyRes) Len(list interface{}) int {
